@@ -24,6 +24,8 @@ class _Dir(object):
         self.ev = Event()
         self.total = 0
         self.chunked = False        # True: every sendall() stays a segment of its own (recv returns at most one)
+        self.cap = None             # int: at most this many unread bytes fit (the peer's window); sendall() blocks beyond
+        self.space_ev = Event()
 
     def put(self, tag, data):
         if self.segs and self.segs[-1][0] == tag and not self.chunked:
@@ -78,6 +80,7 @@ class VSocket(object):
         del buf[:take]
         if not buf:
             self.rx.segs.pop(0)
+        self.rx.space_ev.set()
         return data
 
     def recv(self, n=4096, *flags):
@@ -104,7 +107,24 @@ class VSocket(object):
         self.tx.put(tag, data)
 
     def sendall(self, data, *flags):
-        self._put('c', data)
+        if self.tx.cap is None:
+            self._put('c', data)
+            return
+        # a peer that does not read: what does not fit waits (a gevent.Timeout around the call fires inside this wait, with
+        # part of the data already gone)
+        data = bytes(data)
+        while data:
+            space = self.tx.cap - self.tx.avail()
+            if space <= 0:
+                if self.is_closed:
+                    raise _socket.error(9, 'Bad file descriptor')
+                if self.rx.eof:
+                    raise _socket.error(32, 'Broken pipe')       # the peer is gone: nobody will ever make room
+                self.tx.space_ev.clear()
+                self.tx.space_ev.wait()
+                continue
+            self._put('c', data[:space])
+            data = data[space:]
 
     def send(self, data, *flags):
         self._put('c', data)
@@ -118,6 +138,8 @@ class VSocket(object):
         self.tx.eof = True
         self.tx.ev.set()
         self.rx.ev.set()
+        self.rx.space_ev.set()
+        self.tx.space_ev.set()
         if self.net is not None:
             self.net.closed(self)
 
@@ -266,9 +288,10 @@ class Net(object):
         self.connections = 0
         self.log = []
 
-    def pair(self, peername=('192.0.2.10', 25), chooser=None, chunked=False):
+    def pair(self, peername=('192.0.2.10', 25), chooser=None, chunked=False, capacity=None):
         a, b = _Dir(), _Dir()
         a.chunked = b.chunked = chunked
+        b.cap = capacity            # client -> server direction
         client = VSocket(a, b, 'client%d' % self.connections, self, peername, chooser)
         server = VSocket(b, a, 'server%d' % self.connections, self, ('192.0.2.20', 40000), chooser)
         client.peer, server.peer = server, client
